@@ -23,14 +23,21 @@
 /*
  * Includes order: from local to global (local, this-subsystem, snoopy.h, other-subsystems, global)
  */
+#ifndef   _POSIX_C_SOURCE   // For fileno(), sigprocmask(), sigpending() and sigtimedwait()
+#define   _POSIX_C_SOURCE   200809L
+#endif
+
 #include "file-snoopy.h"
 
 #include "snoopy.h"
 
 #include <errno.h>
+#include <poll.h>
+#include <signal.h>
 #include <stdio.h>
 #include <stdlib.h>
 #include <string.h>
+#include <time.h>
 
 
 
@@ -170,4 +177,72 @@ int snoopy_util_file_getSmallTextFileContent (char const * const filePath, char 
     // Return
     *contentPtrAddr = contentPtr;
     return (int) bytesReadTotal;
+}
+
+
+
+/*
+ * Writes a line to a stream that belongs to the calling program (stdout, stderr)
+ *
+ * Description:
+ *     Such a stream may be a pipe or a socket that nobody reads (anymore). The
+ *     calling program must neither be stalled by a full pipe nor be killed by
+ *     the SIGPIPE of a vanished reader just because its exec() is being logged,
+ *     therefore the line is only written if there is room for it right now, and
+ *     a SIGPIPE caused by the write is not let through.
+ *
+ * Params:
+ *     stream:   Stream to write to
+ *     line:     Text to write, a newline is appended
+ *
+ * Return:
+ *     int:      Number of characters written, or -1 if nothing was written
+ */
+int snoopy_util_file_writeLineToCallerStream (FILE * const stream, char const * const line)
+{
+    struct pollfd   streamPollFd;
+    sigset_t        sigpipeSet;
+    sigset_t        pendingSet;
+    sigset_t        callerSigMask;
+    struct timespec noWait = {0, 0};
+    int             sigpipeWasPending;
+    int             charCount;
+
+    // Is anybody (still) there, and is there room right now?
+    streamPollFd.fd      = fileno(stream);
+    streamPollFd.events  = POLLOUT;
+    streamPollFd.revents = 0;
+    if (
+        (streamPollFd.fd < 0)
+        ||
+        (1 != poll(&streamPollFd, 1, 0))
+        ||
+        (streamPollFd.revents & (POLLERR | POLLHUP | POLLNVAL))
+        ||
+        !(streamPollFd.revents & POLLOUT)
+    ) {
+        return -1;
+    }
+
+    // The reader may still vanish before we write - keep the resulting SIGPIPE away from the calling program
+    sigemptyset(&sigpipeSet);
+    sigaddset(&sigpipeSet, SIGPIPE);
+    sigpending(&pendingSet);
+    sigpipeWasPending = sigismember(&pendingSet, SIGPIPE);
+    sigprocmask(SIG_BLOCK, &sigpipeSet, &callerSigMask);
+
+    charCount = fprintf(stream, "%s\n", line);
+    if (0 != fflush(stream)) {
+        charCount = -1;
+    }
+
+    if (!sigpipeWasPending) {
+        sigpending(&pendingSet);
+        if (sigismember(&pendingSet, SIGPIPE)) {
+            sigtimedwait(&sigpipeSet, NULL, &noWait);
+        }
+    }
+    sigprocmask(SIG_SETMASK, &callerSigMask, NULL);
+
+    return charCount;
 }
